@@ -773,7 +773,7 @@ func Parts() []mc.Part {
 	auth := Variant{Name: "authority-and-ids", MaxClasses: 2, MaxTokens: 2,
 		Rule: "state with >= 2 classes or a class whose owner is not its issuer; distinct by canonical hash of the mt store and the reference ledger"}
 	return []mc.Part{
-		mc.ExplorePart(ledger.Name, New(ledger), 5, 6, false, ledger.Rule),
-		mc.ExplorePart(auth.Name, New(auth), 6, 8, false, auth.Rule),
+		mc.ExplorePartC(ledger.Name, New(ledger), 5, 6, false, ledger.Rule, &mc.ConfOpts{Stores: []string{"mt"}, SkipDenoms: map[string]bool{"stake": true}, MaxPaths: 100}),
+		mc.ExplorePartC(auth.Name, New(auth), 6, 8, false, auth.Rule, &mc.ConfOpts{Stores: []string{"mt"}, SkipDenoms: map[string]bool{"stake": true}, MaxPaths: 100}),
 	}
 }
